@@ -43,6 +43,8 @@ pub struct Flavor {
     pub status_pokes: bool,
     pub two_phase_ro: bool,
     pub max_cluster_bytes: u32,
+    /// percentage of runs that start from a builder-made (refgen) volume: 1-3 FATs, mirroring off, zero padding, ...
+    pub refgen_pct: u32,
 }
 
 pub fn base_flavor(prop: &'static str) -> Flavor {
@@ -58,6 +60,7 @@ pub fn base_flavor(prop: &'static str) -> Flavor {
         status_pokes: false,
         two_phase_ro: false,
         max_cluster_bytes: 65536,
+        refgen_pct: 0,
     }
 }
 
@@ -87,6 +90,7 @@ pub fn flavor_for(prop: &str) -> Flavor {
         "C03" => {
             f.prop = "C03";
             f.oracles = Oracles { fsck: true, ..Default::default() };
+            f.refgen_pct = 15;
             f.profile = |r| {
                 let mut p = Profile::mixed();
                 p.clients = r.range(1, 4) as u8;
@@ -130,11 +134,22 @@ pub fn flavor_for(prop: &str) -> Flavor {
             f.prop = "C10";
             f.oracles = Oracles { fat_copies: true, ..Default::default() };
             f.fat_w = [4, 3, 3];
+            f.refgen_pct = 50;
+            f.ballast_pct = 70;
+            f.profile = |r| {
+                let mut p = Profile::mixed();
+                p.w_write = 26;
+                p.w_remove = 18;
+                p.w_truncate = 8;
+                p.steps = r.range(10, 70) as usize;
+                p
+            };
         }
         "C11" => {
             f.prop = "C11";
             f.oracles = Oracles { write_audit: true, ..Default::default() };
             f.fat_w = [4, 3, 3];
+            f.refgen_pct = 30;
         }
         "C12" => {
             f.prop = "C12";
@@ -143,9 +158,12 @@ pub fn flavor_for(prop: &str) -> Flavor {
             f.profile = |r| {
                 let mut p = Profile::mixed();
                 p.w_checkpoint = 8;
-                p.w_remount = 8;
+                p.w_remount = if r.chance(1, 2) { 8 } else { 30 };
                 p.w_settime = 5;
-                p.steps = r.range(6, 50) as usize;
+                p.w_truncate = 10;
+                p.w_seek = 12;
+                p.w_open_file = 14;
+                p.steps = r.range(6, 60) as usize;
                 p
             };
         }
@@ -176,6 +194,17 @@ pub fn flavor_for(prop: &str) -> Flavor {
 }
 
 pub fn draw_cfg(r: &mut Rng, fl: &Flavor) -> RunCfg {
+    if fl.refgen_pct > 0 && r.below(100) < u64::from(fl.refgen_pct) {
+        // builder-made volume (declined geometries fall back to a library-formatted one)
+        for _ in 0..4 {
+            let c = crate::c08::draw_refgen_cfg(r, fl.oracles.clone(), fl.benign);
+            if let VolSource::Refgen(s) = c.vol.source {
+                if crate::refgen::build(&c.vol, s).is_ok() {
+                    return c;
+                }
+            }
+        }
+    }
     let tot: u32 = fl.fat_w.iter().sum();
     let mut x = r.below(u64::from(tot)) as u32;
     let mut fat = 12u8;
